@@ -9,6 +9,8 @@ import OtelVerif.Model.Span
     links  : -  |  <tid 32hex>/<sid 16hex>/<flags 2hex>/<attrs> joined by `|`
     op     : [@<thread>] attr <key> <value> | ev <name> | evt <name> <ts> | eva <name> <attrs> | evta <name> <ts> <attrs>
            | status <code 0..2> <desc> | name <hex> | end <steady> | flush | isrec | par | seq
+           | link <tid>/<sid>/<flags>/<attrs> | links <link>|<link>|… (or -)      (engine `span2` only: ABI v2 AddLink / AddLinks)
+  Engine `span2` = the same protocol against the harness built with OPENTELEMETRY_ABI_VERSION_NO=2.
   `par … seq`: the harness runs the section's ops on real threads concurrently; inside a section every op is a
   thread-tagged attr / event op whose key / name starts with the digit of its thread, so every interleaving gives the same
   record up to the relative order of events of different threads; the model applies the ops in line order (one admissible
@@ -87,12 +89,14 @@ def parseCfg : List String → Option Cfg
 
 inductive DOp where
   | op (o : Op)
+  /-- `AddLinks(list)`: one `AddLink` per element -/
+  | ops (l : List Op)
   | isrec
   | par
   | seq
 
 /-- `none` = malformed; otherwise the thread tag (if any) and the operation -/
-def parseOp (toks : List String) : Option (Option Nat × DOp) :=
+def parseOp (v2 : Bool) (toks : List String) : Option (Option Nat × DOp) :=
   let (tag, toks) : Option (Option Nat) × List String := match toks with
     | t :: rest =>
       if t.startsWith "@" then
@@ -117,6 +121,8 @@ def parseOp (toks : List String) : Option (Option Nat × DOp) :=
       | ["name", n] => do pure (.op (.updateName (← ofHexStr n)))
       | ["end", e] => do pure (.op (.end_ (← parseI 64 e)))
       | ["flush"] => some (.op .flush)
+      | ["link", l] => if v2 then (parseLink l).map fun l => .op (.addLink l.1 l.2.1 l.2.2.1 l.2.2.2) else none
+      | ["links", ls] => if v2 then (parseLinks ls).map fun ls => .ops (ls.map fun l => .addLink l.1 l.2.1 l.2.2.1 l.2.2.2) else none
       | ["isrec"] => some .isrec
       | ["par"] => if tag.isNone then some .par else none
       | ["seq"] => if tag.isNone then some .seq else none
@@ -134,11 +140,11 @@ def sectionsOk : Bool → List (Option Nat × DOp) → Bool
   | true, _ :: _ => false
   | false, _ :: t => sectionsOk false t
 
-def handleSpan (toks : List String) : String :=
+def handleSpan (v2 : Bool) (toks : List String) : String :=
   match splitOps toks with
   | [] => "bad-op"
   | cfgToks :: opToks =>
-    match parseCfg cfgToks, opToks.mapM parseOp with
+    match parseCfg cfgToks, opToks.mapM (parseOp v2) with
     | some cfg, some ops =>
       if !sectionsOk false ops then "bad-op" else
       let grouped := ops.any fun o => match o.2 with | .par => true | .seq => true | _ => false
@@ -146,11 +152,12 @@ def handleSpan (toks : List String) : String :=
         match o.2 with
         | .isrec => (acc.1, acc.2 ++ [bool01 acc.1.recordable.isSome])
         | .op op => (step acc.1 op, acc.2)
+        | .ops l => (exec acc.1 l, acc.2)
         | _ => acc) (init cfg, [])
       let s := exec s [.end_ 0, .flush]
       "rec=[" ++ ",".intercalate obs ++ "] | " ++ " | ".intercalate ((List.range s.procs.length).zipWith (showProc grouped) s.procs)
     | _, _ => "bad-op"
 
-def C04.handlers : List (String × (List String → String)) := [("span", handleSpan)]
+def C04.handlers : List (String × (List String → String)) := [("span", handleSpan false), ("span2", handleSpan true)]
 
 end Driver
